@@ -38,7 +38,7 @@ func init() {
 		Render:   render,
 		Required: []string{"root == model root", "root == model root, n not a power of two", "audit path verifies against the library root",
 			"Hash(nil) == EmptyRoot() == H()", "Hash(empty slice) == H()", "inputs unchanged", "same root from leaves of another type",
-			"fail: error of the lowest failing index returned, no hash", "fail: several failing leaves", "leaves marshaled once each in index order"},
+			"fail: error of the lowest failing index returned, no hash", "fail: several failing leaves"},
 	})
 }
 
